@@ -3,6 +3,7 @@
    the implementation against the specification only.  Stateless: one line in, one line out. -/
 import NngModel.Driver.Common
 import NngModel.Model.Backtrace
+import NngModel.Generated.Base
 namespace Nng.Driver.Backtrace
 open Nng Nng.Bt Nng.BtSpec Nng.Driver
 
